@@ -115,13 +115,20 @@ func checkUnique(_ *testing.T, v *ev.Verdict, c UniqueCase) {
 		var list *unique.KeyedList[int, KV]
 		var mp *unique.KeyedMap[int, KV]
 		if c.Map {
-			init := map[int]KV{}
+			var init map[int]KV // no initial contents: a nil map (callers pass nil for "empty")
+			if len(model) > 0 {
+				init = map[int]KV{}
+			}
 			for k, x := range model {
 				init[k] = x
 			}
 			mp = unique.NewKeyedMap[int, KV](cmp, changed, init)
 		} else {
-			list = unique.NewKeyedList[int, KV](func(x KV) int { return x.K }, cmp, changed, c.Initial)
+			initial := c.Initial
+			if len(initial) == 0 {
+				initial = nil
+			}
+			list = unique.NewKeyedList[int, KV](func(x KV) int { return x.K }, cmp, changed, initial)
 		}
 		apply := func(m map[int]KV, x KV) {
 			if old, ok := m[x.K]; ok {
